@@ -12,19 +12,20 @@ Definition sEntries (l : list pentry) : sexp := L (map (fun e => L [A (fst e); j
 (* the hypotheses of C07_parse_once_op, evaluated one by one: where all hold the theorem applies.  First those about
    the operation (sub-language with distinct Python names; no class called BaseModel), then those about the payload
    (conformant to the selection, no duplicate keys) *)
-Definition op_in_theorem (fuel : nat) (c : cfg) (s : schema) (fs : list fragdef) (d : defn)
+Definition op_in_theorem (fuel : nat) (c : cfg) (s : schema) (fs : list fragdef) (cls : list pclass) (d : defn)
   : string * option (string * list sel) :=
   match d with
-  | DOp kind name [] sels =>
-      match root_type_name s kind, op_parse fuel c s fs kind name [] sels with
+  | DOp kind name mixins sels =>
+      (* mx: the @mixin names of the operation itself (a @mixin on a field then falls outside op_ok) *)
+      match root_type_name s kind, op_parse fuel c s fs kind name mixins sels with
       | Ok root, Ok (own, _, false) =>
-          if negb (ResultsObjP.op_ok fuel true c s fs root sels) then ("op_ok", None)
+          if negb (ResultsObjP.op_ok fuel true c s fs mixins mixins root sels) then ("op_ok", None)
+          else if negb (ResultsRunP.mx_ok cls mixins) then ("mx_ok", None)
           else if negb (ResultsRunP.no_basemodel own) then ("basemodel", None)
           else ("t", Some (root, sels))
       | Ok _, Ok (_, _, true) => ("ghost", None)
       | _, _ => ("parse", None)
       end
-  | DOp _ _ _ _ => ("mixins", None)
   | _ => ("fragment", None)
   end.
 
@@ -38,7 +39,7 @@ Definition run_parselog (e : sexp) : sexp :=
               let cs := root :: rest in
               let a := AClass (c_name root) in
               let n := fuel + 2 in
-              let thm := op_in_theorem fuel c s fs d in
+              let thm := op_in_theorem fuel c s fs cs d in
               L [A "ok"; L (map (fun j => L [sEntries (plog n cs a j); sEntries (pocc n cs a j);
                                              sB (uniq n cs a j);
                                              sB (accepts n cs (schema_enums s) a j);
